@@ -33,6 +33,23 @@ namespace occa {
                modeMemory != NULL);
   }
 
+  void memory::assertValidRange(const dim_t count,
+                                const dim_t offset,
+                                const udim_t entries) {
+    // Checked in entries, before anything is scaled to bytes,
+    // so that huge or negative values cannot wrap around
+    OCCA_ERROR("Trying to access a negative number of entries (" << count << ")",
+               count >= -1);
+
+    OCCA_ERROR("Cannot have a negative offset (" << offset << ")",
+               offset >= 0);
+
+    OCCA_ERROR("Memory has [" << entries << "] entries,"
+               << " trying to access [" << offset << ", " << offset << " + " << count << "]",
+               ((udim_t) offset <= entries)
+               && ((count == -1) || ((udim_t) count <= (entries - (udim_t) offset))));
+  }
+
   void memory::setModeMemory(modeMemory_t *modeMemory_) {
     if (modeMemory != modeMemory_) {
       removeMemoryRef();
@@ -170,6 +187,17 @@ namespace occa {
                              const dim_t count) const {
     if (!isInitialized()) return memory();
 
+    OCCA_ERROR("Cannot have a negative offset (" << offset << ")",
+               offset >= 0);
+
+    OCCA_ERROR("Trying to allocate negative elements (" << count << ")",
+               count >= -1);
+
+    OCCA_ERROR("Memory size is less than offset + count ("
+                << size() << " <" << offset << " + " << count << ")",
+               ((udim_t) offset <= size())
+               && ((count == -1) || ((udim_t) count <= (size() - (udim_t) offset))));
+
     const int dtypeSize = modeMemory->dtype_->bytes();
     const dim_t offset_ = dtypeSize * offset;
     const dim_t bytes  = dtypeSize * ((count == -1)
@@ -195,6 +223,8 @@ namespace occa {
                         const occa::json &props) {
     if (!isInitialized()) return;
 
+    assertValidRange(count, offset, length());
+
     const int dtypeSize = modeMemory->dtype_->bytes();
     const dim_t bytes  = dtypeSize * ((count == -1) ? length() : count);
     const dim_t offset_ = dtypeSize * offset;
@@ -219,6 +249,10 @@ namespace occa {
                         const occa::json &props) {
    if (!isInitialized() && !src.isInitialized()) return;
     assertInitialized();
+    src.assertInitialized();
+
+    assertValidRange(count, destOffset, length());
+    assertValidRange(0, srcOffset, src.length());
 
     const int dtypeSize = modeMemory->dtype_->bytes();
     const dim_t bytes  = dtypeSize * ((count == -1) ? length() : count);
@@ -251,6 +285,8 @@ namespace occa {
                       const occa::json &props) const {
     if (!isInitialized()) return;
 
+    assertValidRange(count, offset, length());
+
     const int dtypeSize = modeMemory->dtype_->bytes();
     const dim_t bytes  = dtypeSize * ((count == -1) ? length() : count);
     const dim_t offset_ = dtypeSize * offset;
@@ -275,6 +311,10 @@ namespace occa {
                       const occa::json &props) const {
     if (!isInitialized() && !dest.isInitialized()) return;
     assertInitialized();
+    dest.assertInitialized();
+
+    assertValidRange(count, srcOffset, length());
+    assertValidRange(0, destOffset, dest.length());
 
     const int dtypeSize = modeMemory->dtype_->bytes();
     const dim_t bytes  = dtypeSize * ((count == -1) ? length() : count);
